@@ -36,41 +36,8 @@ def run(rep, facts, tier):
     rep.rule('R01.5', 'field provenance: CacheChange::new gets (source_guid_prefix + writer_id, writer_sn, payload) of the DATA/DATAFRAG being processed')
     rep.rule('R01.6', 'exclusive-bound discipline: an exclusive "..._before" bound used as the end of an inclusive sequence-number range is decremented by one')
 
-    # ------------------------------------------------------------ R01.1
-    g = fx.find('structure::dds_cache::TopicCache::get_changes_in_range_reliable')
-    rep.analysed(g)
-    n = 0
-    for c in fx.closures_of(g):
-        og = Origins(c, summaries=True)
-        for bb, t in c.calls():
-            if not callee_res(t).endswith('::range'):
-                continue
-            n += 1
-            rep.analysed(c)
-            a = resolve_captures(fx, c, og.of_operand(t['args'][1], bb, 'term'))
-            ok = a[0] == 'agg' and a[1] == 'tuple' and len(a[2]) == 2
-            lo = hi = None
-            if ok:
-                lo_b, hi_b = a[2]
-                ok = lo_b[0] == 'agg' and lo_b[1].endswith('Bound::Excluded') and hi_b[0] == 'agg' and hi_b[1].endswith('Bound::Excluded')
-                if ok:
-                    lo, hi = lo_b[2][0], hi_b[2][0]
-            rep.check(ok, 'R01.1', 'get_changes_in_range_reliable/bounds-kind', '(Excluded(lo), Excluded(hi))',
-                      'the reliable window is not exclusive on both ends: Included(lo) re-delivers the last sample read, Included(hi) delivers past the reliable marker', c.where(bb))
-            if lo is not None:
-                ok_lo = has_call(lo, '::unwrap_or') and has_field(lo, 'last_read_sn') or (has_call(lo, '::unwrap_or') and term_has(lo, lambda x: x[0] == 'captured' and x[1] == 'last_read_sn'))
-                ok_lo = ok_lo and (has_call(lo, 'SequenceNumber::zero') or term_has(lo, lambda x: x == ('const', 'int', 0)))
-                rep.check(ok_lo, 'R01.1', 'get_changes_in_range_reliable/lower', 'lo = last_read_sn.get(guid) | zero', 'the lower bound is not the per-writer read pointer (or zero): %s' % term_str(lo)[:120], c.where(bb))
-                ok_hi = hi[0] == 'call' and hi[1].endswith('cmp::max') and any(has_call(x, 'reliable_before') or has_field(x, 'received_reliably_before') for x in hi[2]) and \
-                    any(has_call(x, 'plus_1') and (has_field(x, 'last_read_sn') or term_has(x, lambda y: y[0] == 'captured' and y[1] == 'last_read_sn')) for x in hi[2])
-                rep.check(ok_hi, 'R01.1', 'get_changes_in_range_reliable/upper', 'hi = max(reliable_before(guid), lo + 1)',
-                          'the upper bound is not max(reliable_before(guid), lo+1): samples past a hole could be handed over (%s)' % term_str(hi)[:140], c.where(bb))
-    rep.floor('R01.1', n, 1, 'range() over the per-writer sequence-number map')
-    rb = fx.find('structure::dds_cache::TopicCache::reliable_before')
-    og = Origins(rb, summaries=True)
-    t0 = og.of_local(0, rb.return_blocks()[0], 'term')
-    rep.check(has_field(t0, 'received_reliably_before') and term_has(t0, lambda x: x == ('param', 2)), 'R01.1', 'reliable_before/lookup',
-              'received_reliably_before.get(writer) | default', 'reliable_before does not look the marker up by the given writer', rb.where())
+    # ------------------------------------------------------------ R01.1 (shared with C06 R06.4)
+    rule_reliable_window(rep, fx, 'R01.1')
 
     # ------------------------------------------------------------ R01.2
     tk = fx.find('dds::with_key::simpledatareader::SimpleDataReader::try_take_one_with')
@@ -233,6 +200,8 @@ def run(rep, facts, tier):
     rule_exclusive_bound(rep, fx, 'R01.6')
 
     rule_01_9(rep, fx)
+    from rules.C05 import rule_frag_amount
+    rule_frag_amount(rep, fx, 'R01.10')
 
     # ------------------------------------------------------------ R01.8 (shared with C08 R08.9)
     from rules.C08 import rule_sort_before_limit
@@ -360,3 +329,41 @@ def rule_01_9(rep, fx):
                 okb = okb or term_has(a, lambda x: x[0] == 'field' and x[1] == 'source_timestamp' and term_has(x, lambda y: y[0] == 'param'))
         rep.check(okb, 'R01.9', '%s/source-timestamp' % nm, 'WriteOptions.source_timestamp from mr_state.source_timestamp',
                   'Reader::%s does not take the sample\'s source timestamp from the message receiver state' % nm, b.where())
+
+
+def rule_reliable_window(rep, fx, rid):
+    """Bounds of the reliable hand-over window (shared: C01 R01.1, C06 R06.4: with both bounds excluded, start == end makes BTreeMap::range panic)."""
+    g = fx.find('structure::dds_cache::TopicCache::get_changes_in_range_reliable')
+    rep.analysed(g)
+    n = 0
+    for c in fx.closures_of(g):
+        og = Origins(c, summaries=True)
+        for bb, t in c.calls():
+            if not callee_res(t).endswith('::range'):
+                continue
+            n += 1
+            rep.analysed(c)
+            a = resolve_captures(fx, c, og.of_operand(t['args'][1], bb, 'term'))
+            ok = a[0] == 'agg' and a[1] == 'tuple' and len(a[2]) == 2
+            lo = hi = None
+            if ok:
+                lo_b, hi_b = a[2]
+                ok = lo_b[0] == 'agg' and lo_b[1].endswith('Bound::Excluded') and hi_b[0] == 'agg' and hi_b[1].endswith('Bound::Excluded')
+                if ok:
+                    lo, hi = lo_b[2][0], hi_b[2][0]
+            rep.check(ok, rid, 'get_changes_in_range_reliable/bounds-kind', '(Excluded(lo), Excluded(hi))',
+                      'the reliable window is not exclusive on both ends: Included(lo) re-delivers the last sample read, Included(hi) delivers past the reliable marker', c.where(bb))
+            if lo is not None:
+                ok_lo = has_call(lo, '::unwrap_or') and has_field(lo, 'last_read_sn') or (has_call(lo, '::unwrap_or') and term_has(lo, lambda x: x[0] == 'captured' and x[1] == 'last_read_sn'))
+                ok_lo = ok_lo and (has_call(lo, 'SequenceNumber::zero') or term_has(lo, lambda x: x == ('const', 'int', 0)))
+                rep.check(ok_lo, rid, 'get_changes_in_range_reliable/lower', 'lo = last_read_sn.get(guid) | zero', 'the lower bound is not the per-writer read pointer (or zero): %s' % term_str(lo)[:120], c.where(bb))
+                ok_hi = hi[0] == 'call' and hi[1].endswith('cmp::max') and any(has_call(x, 'reliable_before') or has_field(x, 'received_reliably_before') for x in hi[2]) and \
+                    any(has_call(x, 'plus_1') and (has_field(x, 'last_read_sn') or term_has(x, lambda y: y[0] == 'captured' and y[1] == 'last_read_sn')) for x in hi[2])
+                rep.check(ok_hi, rid, 'get_changes_in_range_reliable/upper', 'hi = max(reliable_before(guid), lo + 1)',
+                          'the upper bound is not max(reliable_before(guid), lo+1): samples past a hole could be handed over (%s)' % term_str(hi)[:140], c.where(bb))
+    rep.floor(rid, n, 1, 'range() over the per-writer sequence-number map')
+    rb = fx.find('structure::dds_cache::TopicCache::reliable_before')
+    og = Origins(rb, summaries=True)
+    t0 = og.of_local(0, rb.return_blocks()[0], 'term')
+    rep.check(has_field(t0, 'received_reliably_before') and term_has(t0, lambda x: x == ('param', 2)), rid, 'reliable_before/lookup',
+              'received_reliably_before.get(writer) | default', 'reliable_before does not look the marker up by the given writer', rb.where())
